@@ -49,6 +49,15 @@ enum Kind {
     Index,
     NoIndex,
     Complete,
+    /// ShapeReader without index, alphabet including the calls that need one: they must
+    /// fail and change nothing
+    NoIndexFailingCalls,
+    /// complete Reader whose ShapeReader has no index
+    CompleteNoIndex,
+}
+
+fn has_index(kind: Kind) -> bool {
+    matches!(kind, Kind::Index | Kind::Complete)
 }
 
 /// Origin of the model state when a call starts (for the violation signature).
@@ -131,6 +140,8 @@ fn open(kind: Kind, f: &Files) -> AnyReader {
         Kind::Index => AnyReader::Shape(ShapeReader::with_shx(c(&f.shp), c(&f.shx)).expect("harness: open")),
         Kind::NoIndex => AnyReader::Shape(ShapeReader::new(c(&f.shp)).expect("harness: open")),
         Kind::Complete => AnyReader::Complete(Reader::new(ShapeReader::with_shx(c(&f.shp), c(&f.shx)).expect("harness: open"), dbase::Reader::new(c(&f.dbf)).expect("harness: open dbf"))),
+        Kind::NoIndexFailingCalls => AnyReader::Shape(ShapeReader::new(c(&f.shp)).expect("harness: open")),
+        Kind::CompleteNoIndex => AnyReader::Complete(Reader::new(ShapeReader::new(c(&f.shp)).expect("harness: open"), dbase::Reader::new(c(&f.dbf)).expect("harness: open dbf"))),
     }
 }
 
@@ -221,6 +232,14 @@ fn run_word(kind: Kind, f: &Files, word: &[L], typed: Option<i32>, rep: &mut Rep
                     AnyReader::Shape(r) => r.shape_count(),
                     AnyReader::Complete(r) => r.shape_count(),
                 };
+                if !has_index(kind) {
+                    // without an index the call must fail (and change nothing)
+                    rep.count("calls_that_must_fail_without_index", 1);
+                    if c.is_ok() {
+                        return Some((idx, origin, "shape_count succeeded without an index".into()));
+                    }
+                    continue;
+                }
                 match c {
                     Ok(k) if k == N => {}
                     Ok(k) => return Some((idx, origin, format!("shape_count = {} (file has {})", k, N))),
@@ -237,6 +256,13 @@ fn run_word(kind: Kind, f: &Files, word: &[L], typed: Option<i32>, rep: &mut Rep
                     Some(t) => for_type!(t, T => r.read_nth_shape_as::<T>(i).map(|x| x.map(|s| s.d()))),
                 };
                 rep.count("random_accesses_observed", 1);
+                if !has_index(kind) {
+                    rep.count("calls_that_must_fail_without_index", 1);
+                    if !matches!(got, Some(Err(_))) {
+                        return Some((idx, origin, format!("read_nth_shape({}) without an index did not return an error", i)));
+                    }
+                    continue;
+                }
                 let ok = if i < N { matches!(&got, Some(Ok(d)) if *d == f.recs[i]) } else { got.is_none() };
                 if !ok {
                     let what = match got {
@@ -256,6 +282,14 @@ fn run_word(kind: Kind, f: &Files, word: &[L], typed: Option<i32>, rep: &mut Rep
                     AnyReader::Shape(r) => r.seek(k),
                     AnyReader::Complete(r) => r.seek(k),
                 };
+                if !has_index(kind) {
+                    // a seek that fails must leave shapes AND attribute rows where they were
+                    rep.count("calls_that_must_fail_without_index", 1);
+                    if r.is_ok() {
+                        return Some((idx, origin, format!("seek({}) succeeded without an index", k)));
+                    }
+                    continue;
+                }
                 if let Err(e) = r {
                     return Some((idx, origin, format!("seek({}) failed: {}", k, err_class(&e))));
                 }
@@ -279,7 +313,7 @@ fn run_word(kind: Kind, f: &Files, word: &[L], typed: Option<i32>, rep: &mut Rep
                         Some(j) => obs.items.len() == j || obs.ended,
                         None => obs.ended,
                     };
-                    let rows_ok = kind != Kind::Complete || obs.rows.iter().enumerate().all(|(i, r)| *r == Some(s + i));
+                    let rows_ok = !matches!(kind, Kind::Complete | Kind::CompleteNoIndex) || obs.rows.iter().enumerate().all(|(i, r)| *r == Some(s + i));
                     if items_ok && end_ok && rows_ok {
                         matched.insert(s);
                     }
@@ -305,6 +339,12 @@ fn alphabet(kind: Kind) -> Vec<L> {
     let mut a = vec![L::Iter(0), L::Iter(1), L::Iter(2), L::IterAll];
     match kind {
         Kind::NoIndex => {}
+        Kind::NoIndexFailingCalls => {
+            a.extend_from_slice(&[L::Count, L::Nth(0), L::Nth(2), L::Seek(1), L::Seek(3)]);
+        }
+        Kind::CompleteNoIndex => {
+            a.extend_from_slice(&[L::Count, L::Seek(0), L::Seek(1), L::Seek(3)]);
+        }
         Kind::Index => {
             a.push(L::Count);
             for i in 0..=N {
@@ -351,6 +391,7 @@ pub fn run(ctx: &Ctx) -> Report {
             // the typed variants (`*_as::<T>`) run one letter shorter in the thorough tier
             let cut = if typed && ctx.thorough { 1 } else { 0 };
             v.extend_from_slice(&[(Kind::Index, false, li - cut, typed), (Kind::Index, true, li - cut, typed), (Kind::NoIndex, false, ln - cut, typed), (Kind::NoIndex, true, ln - cut, typed), (Kind::Complete, false, lc - cut, typed), (Kind::Complete, true, lc - cut, typed)]);
+            v.extend_from_slice(&[(Kind::NoIndexFailingCalls, false, lc - cut, typed), (Kind::CompleteNoIndex, false, lc - cut, typed), (Kind::CompleteNoIndex, true, lc - cut, typed)]);
         }
         v
     };
@@ -364,6 +405,8 @@ pub fn run(ctx: &Ctx) -> Report {
             Kind::Index => "index",
             Kind::NoIndex => "no-index",
             Kind::Complete => "Reader",
+            Kind::NoIndexFailingCalls => "no-index+failing-calls",
+            Kind::CompleteNoIndex => "Reader-without-index",
         };
         let blocks = 64.min(ws.len());
         let rep = par(ctx, blocks, |b, rep| {
